@@ -181,6 +181,10 @@ func checkC09(c *Check) {
 			ptree := valueTree(part)
 			mu.Lock()
 			cases = append(cases, cutCase{"prefix", format, doc, k, tname, ptree, ftree})
+			if format == "cbe" && tname == "untyped" {
+				// a binary element is delivered whole or not at all
+				cases = append(cases, cutCase{"prefix-strict", format, doc, k, tname, ptree, ftree})
+			}
 			if prev != nil {
 				// completely decoded elements stay present: results only grow with the cut point
 				cases = append(cases, cutCase{"grows", format, doc, k, tname, prev, ptree})
@@ -206,6 +210,26 @@ func checkC09(c *Check) {
 		wg.Add(1)
 		sem <- struct{}{}
 		go func() { defer wg.Done(); addCuts(d.Format, d.Doc, nil, "untyped", d.TopContainer); <-sem }()
+	}
+	// arrays of several chunks inside containers: a cut between two chunks leaves an element that is not complete
+	{
+		ev := func(m string) AEv { return newEv(m) }
+		begin := func(at string) AEv { e := ev("OnArrayBegin"); e.AT, e.DT = at, at; return e }
+		chunk := func(n int, more bool) AEv { e := ev("OnArrayChunk"); e.N, e.More = n, more; return e }
+		data := func(b ...int) AEv { e := ev("OnArrayData"); e.Bytes = b; return e }
+		one := intEv("OnPositiveInt", "pint", "1")
+		for _, evs := range [][]AEv{
+			{ev("OnBeginDocument"), ev("OnVersion"), ev("OnList"), one, begin("string"), chunk(3, true), data('a', 'b', 'c'), chunk(2, false), data('d', 'e'), one, ev("OnEndContainer"), ev("OnEndDocument")},
+			{ev("OnBeginDocument"), ev("OnVersion"), ev("OnList"), begin("au8"), chunk(2, true), data(1, 2), chunk(1, true), data(3), chunk(1, false), data(4), ev("OnEndContainer"), ev("OnEndDocument")},
+			{ev("OnBeginDocument"), ev("OnVersion"), ev("OnMap"), strEv("string", []byte("k")), begin("string"), chunk(2, true), data('x', 'y'), chunk(1, false), data('z'), strEv("string", []byte("l")), one, ev("OnEndContainer"), ev("OnEndDocument")},
+			{ev("OnBeginDocument"), ev("OnVersion"), ev("OnList"), ev("OnList"), begin("au16"), chunk(1, true), data(1, 0), chunk(1, false), data(2, 0), ev("OnEndContainer"), one, ev("OnEndContainer"), ev("OnEndDocument")},
+		} {
+			if b, rej, _ := encodeCBE(evs, cfg); rej < 0 {
+				addCuts("cbe", b, nil, "untyped", true)
+			} else {
+				machineryFail("C09: multi-chunk document rejected at event %d", rej)
+			}
+		}
 	}
 	// markers on every kind of container: cut right after the marker and inside the marked container
 	mdocs := genCorpusFrom(c, "AlphaMarked", "FilterMarked", "<<EvBD, EvVer(0), EvList>>", map[string]int{"quick": 7, "thorough": 8}[c.Tier], "marked containers")
@@ -304,7 +328,7 @@ func checkC09(c *Check) {
 		pj, _ := json.Marshal(cs.P)
 		fj, _ := json.Marshal(cs.F)
 		c.AddTraces(int64(at))
-		what := map[string]string{"prefix": "is not a prefix of the full value", "grows": "lost elements that were present at the previous cut point (first = previous result, second = this result)",
+		what := map[string]string{"prefix": "is not a prefix of the full value", "prefix-strict": "holds an element that is neither absent nor what the full document holds there (binary elements are delivered whole)", "grows": "lost elements that were present at the previous cut point (first = previous result, second = this result)",
 			"complete": "does not contain every element although only the closing of the top-level container is missing (first = full value, second = result)"}[cs.Kind]
 		c.Violation(fmt.Sprintf("partial result of %s document %x cut at byte %d (template %s) %s: %s vs %s", cs.Format, cs.Doc, cs.Cut, cs.Template, what, pj, fj),
 			map[string]interface{}{"kind": "truncation", "format": cs.Format, "doc": hex.EncodeToString(cs.Doc), "cut": cs.Cut, "template": cs.Template, "what": "not a prefix", "partial": cs.P, "full": cs.F})
